@@ -1,5 +1,5 @@
 use crate::typechecker::type_scheme::TypeScheme;
-use crate::typed_ast::{DefineVariable, Expression, Statement, StructInfo};
+use crate::typed_ast::{DefineVariable, Expression, Statement, StringPart, StructInfo};
 
 pub trait ForAllTypeSchemes {
     fn for_all_type_schemes(&mut self, f: &mut dyn FnMut(&mut TypeScheme));
@@ -229,7 +229,13 @@ impl ForAllExpressions for Expression<'_> {
                 then_expr.for_all_expressions(f);
                 else_expr.for_all_expressions(f);
             }
-            Expression::String(_, _) => {}
+            Expression::String(_, parts) => {
+                for part in parts {
+                    if let StringPart::Interpolation { expr, .. } = part {
+                        expr.for_all_expressions(f);
+                    }
+                }
+            }
             Expression::InstantiateStruct { fields, .. } => {
                 for (_, expr) in fields {
                     expr.for_all_expressions(f);
